@@ -538,6 +538,55 @@ func init() {
 		if funcDecl(cf, "cindex", "init") == nil {
 			problem("cindex.init not found")
 		}
+		// the refined shape of the F06 repair (7ea0278)
+		onlyLoaded, staleWriteNew, deletes := false, false, 0
+		if fds := tmFuncs["dropStale"]; len(fds) == 1 {
+			ast.Inspect(fds[0].Body, func(n ast.Node) bool {
+				if se, ok := n.(*ast.SelectorExpr); ok && se.Sel.Name == "loaded" {
+					onlyLoaded = true
+				}
+				return true
+			})
+		}
+		if fd := funcDecl(cf, "cindex", "onWrite"); fd != nil {
+			ast.Inspect(fd.Body, func(n ast.Node) bool {
+				is, ok := n.(*ast.IfStmt)
+				if !ok {
+					return true
+				}
+				cmp := false
+				ast.Inspect(is.Cond, func(m ast.Node) bool {
+					if be, ok := m.(*ast.BinaryExpr); ok && be.Op == token.GTR && c07Sel(be.X) == "firstRec" && strings.HasSuffix(c07Sel(be.Y), ".Recs") {
+						cmp = true
+					}
+					return true
+				})
+				if cmp {
+					for _, st := range is.Body.List {
+						if as, ok := st.(*ast.AssignStmt); ok && len(as.Lhs) == 1 && c07Sel(as.Lhs[0]) == "newChk" && c07Sel(as.Rhs[0]) == "true" {
+							staleWriteNew = true
+						}
+					}
+				}
+				return true
+			})
+		}
+		if fd := funcDecl(cf, "cindex", "syncChunks"); fd != nil {
+			ast.Inspect(fd.Body, func(n ast.Node) bool {
+				if ce, ok := n.(*ast.CallExpr); ok && c07Sel(ce.Fun) == "delete" && len(ce.Args) == 2 && c07Sel(ce.Args[0]) == "ci.journals" {
+					deletes++
+				}
+				return true
+			})
+		}
+		l.p("/-- `dropStale` looks only at entries read from the snapshot file (`chkInfo.loaded`): a live entry, whose chunk is ahead")
+		l.p("of it for the moment between a confirmed write and its notification, is never dropped (7ea0278) -/")
+		l.p("def dropStaleOnlySnapshotEntries : Bool := %s", leanBool(onlyLoaded))
+		l.p("/-- `cindex.onWrite`: a write that lands on a snapshot entry beyond the records it accounts for (`firstRec > last.Recs`)")
+		l.p("sets `newChk`, so the chunk is rebuilt like one notified from the middle (7ea0278) -/")
+		l.p("def onWriteStaleSnapshotEntryIsNewChk : Bool := %s", leanBool(staleWriteNew))
+		l.p("/-- `cindex.syncChunks` removes the partition from the map instead of storing an empty chunk list after `dropStale` -/")
+		l.p("def syncChunksNeverStoresEmptyList : Bool := %s", leanBool(deletes >= 2))
 		l.p("/-- `cindex.init` checks every loaded root (`ckiCtrlr.isRoot`: the block can be read and is not empty) and forgets the")
 		l.p("ones that fail, so that the chunk takes the \"no index → rebuild\" path (repair of finding F47) -/")
 		l.p("def cindexInitValidatesRoots : Bool := %s", leanBool(c07Reaches(tmFuncs, funcDecl(cf, "cindex", "init"), "isRoot", 2)))
